@@ -158,6 +158,11 @@ def run(repo: Repo, rep: Report, tier: str) -> None:
                           f"`{k4.arg}={t4[:60]}` is stored unresolved: a member typed with `x.type` of an untyped x keeps the internal key (`__v1`), which is not a signal", m4.loc(call4))
     rep.floor("C13-R4", "IR-derived signal properties on combinator placements", n4, 10)
 
+    # ---------------- R5 ---------------------------------------------------------------
+    from .shared import borrow as _borrow
+    _borrow(repo, rep, "C10", "C10-R3", "C13-R5", "an explicitly typed value keeps the signal name the program wrote: common-subexpression elimination may merge two nodes only if their output types agree, "
+            "i.e. the CSE key reads the output type of every keyed node kind", select=lambda o: o.construct.endswith(".output_type"), floor=2)
+
 
 def _stmt(pm, n):
     cur = n
